@@ -8,7 +8,7 @@ PROP = {
          "tests": [
              ("TestVFC16Extract", (30000, 150000)),
              ("TestVFC16EndToEnd", (300, 1000)),
-             ("TestVFC16History", (24, 200)),
+             ("TestVFC16History", (120, 300)),
              ("TestVFC16Volume", (60, 400)),
          ]},
         {"name": "home_tls", "pkg": "internal/home", "files": ["home/common_assembly_test.go", "home/c16_tls_test.go"],
